@@ -212,6 +212,8 @@ MUTANTS = [
       "        encoded = struct.pack(\">L\", num_leases)\n        where = self._read_extra_lease_offset(f)\n        f.seek(where)\n        f.write(encoded)", None),
     M("benign-count-read-renamed", MUT, "        offset = self._read_extra_lease_offset(f)\n        f.seek(offset)\n        (num_extra_leases,) = struct.unpack(\">L\", f.read(4))",
       "        where = self._read_extra_lease_offset(f)\n        f.seek(where)\n        raw = f.read(4)\n        (num_extra_leases,) = struct.unpack(\">L\", raw)", None),
+    M("benign-extra-offset-via-class", MUT, "        f.seek(self.EXTRA_LEASE_OFFSET)\n        (extra_lease_offset,) = struct.unpack(\">Q\", f.read(8))",
+      "        f.seek(MutableShareFile.DATA_LENGTH_OFFSET + 8)\n        (extra_lease_offset,) = struct.unpack(\">Q\", f.read(8))", None),
     M("benign-immutable-count-renamed", IMM, "            new_lease_count = struct.pack(self._lease_count_format, num_leases + 1)\n            self._write_lease_record(f, num_leases, lease_info)\n            self._write_encoded_num_leases(f, new_lease_count)\n",
       "            encoded = struct.pack(self._lease_count_format, num_leases + 1)\n            self._write_lease_record(f, num_leases, lease_info)\n            self._write_encoded_num_leases(f, encoded)\n", None),
     M("benign-immutable-count-offset-decimal", IMM, "        f.seek(0x08)\n        f.write(encoded_num_leases)", "        f.seek(4 + 4)\n        f.write(encoded_num_leases)", None),
